@@ -73,7 +73,7 @@ def choose_decls(tier, rng, split_recs):
     def rnd_fused(maxlen, universe):
         k = rng.randint(1, maxlen)
         return rng.sample(universe, k)
-    hz = [r["f"] for r in split_recs if r["hzsort"]]
+    hz = sorted(r["f"] for r in split_recs if r["hzsort"])
     for f in rng.sample(hz, min(n_hz, len(hz))):
         add({"mode": "one", "f1": f, "f2": []})
     scal = [t for t in L.UALL if not L.is_buf(t)]
@@ -180,7 +180,7 @@ def run(tier, seed):
     work = core.subdir("c34")
 
     # ---- B3 facts: the real _split_fused_types over the whole declaration space of the sweep
-    space = L.seqs(L.UALL, 2) + [s for s in L.seqs(L.UNUM if quick else L.UALL, 3) if len(s) == 3]
+    space = L.seqs(L.UALL, 2) + [s for s in L.seqs(L.UNUMQ if quick else L.UALL, 3) if len(s) == 3]
     declf, factf = os.path.join(work, "split_decls.json"), os.path.join(work, "split_facts.json")
     with open(declf, "w") as f:
         json.dump(space, f)
@@ -251,7 +251,7 @@ def run(tier, seed):
     rin = os.path.join(work, "replay_in.ndjson")
     core.write_ndjson(rin, [{"flags": flags}] + [{"mode": d["mode"], "f1": d["f1"], "f2": d["f2"]} for d in decls])
     futs["replay"] = ex.submit(core.tlc, "Fused", cfg="Fused_replay" if quick else "Fused_replay_t", workers=4, env={"C34_IN": rin},
-                               timeout=1700, coverage=True)
+                               timeout=1700)
     idx = list(enumerate(decls, 1))
     bufd = [(i, d) for i, d in idx if L.decl_has_buf(d)]
     scad = [(i, d) for i, d in idx if not L.decl_has_buf(d)]
@@ -281,11 +281,15 @@ def run(tier, seed):
     if not rp.ok:
         core.die("TLC Fused replay: %s\n%s" % (rp.violation, rp.out[-2000:]))
     cases = rp.printed
-    missing_actions = [a for a in ("MapArg", "MatchSingle", "NoMatchSingle", "MatchMulti", "NoMatchMulti", "Ambiguous",
-                                   "IndexHit", "IndexMiss", "Convert", "ConvertRaise") if rp.coverage.get(a, (0, 0))[0] == 0]
+    acts = {}
+    for r in cases:
+        for a in r["path"]:
+            acts[a] = acts.get(a, 0) + 1
+    missing_actions = [a for a in ("MapArg", "MatchSingle", "NoMatchSingle", "MatchMulti", "Ambiguous",
+                                   "IndexHit", "IndexMiss", "Convert", "ConvertRaise") if not acts.get(a)]
     if missing_actions:
         core.die("vacuous model: actions never taken in the replay part: %s" % missing_actions)
-    cov["action_coverage"] = {k: v[0] for k, v in rp.coverage.items()}
+    cov["action_coverage"] = acts
 
     V = L.make_values()
     per_mod = {}     # module -> (calls, meta)
@@ -442,10 +446,10 @@ def run(tier, seed):
         "corrupted_expectations_rejected": n_demo, "spec_vs_python_drift": n_drift,
         "id_order_flags_measured": flags, "model_mismatch_declarations": len(model_mismatch),
         "exhaustive": True,
-        "rule": "model: every ordered declaration (<=2 members over 17 types, 3 members over %s) x argument kind, 2-parameter and "
+        "rule": "model: every ordered declaration (<=2 members over 18 types, 3 members over %s) x argument kind, 2-parameter and "
                 "indexing cases over a smaller universe; code: _split_fused_types on every declaration of the sweep; compiled: core + "
                 "seeded declarations x all argument kinds x call forms; non-trivial = distinct (declaration, operation, key, "
-                "arguments, form) with a demand (not 'any') + declarations whose real split meets every demand" % ("the 11 scalar types" if quick else "all 17"),
+                "arguments, form) with a demand (not 'any') + declarations whose real split meets every demand" % ("11 scalar types" if quick else "all 18"),
         "samples": samples or [{"note": "no sample drawn"}],
     })
     rc = rep.finish()
